@@ -632,6 +632,12 @@ def r16_skip_depends_on_the_database_only(ctx, res):
                                            f'other lexicons of the resource')
 
 
+def r17_removal_is_not_interrupted_by_its_own_progress_callback(ctx, res):
+    """remove() registers the progress handler's update() as SQLite progress callback: it returns nothing, or the DELETE is aborted
+    and the lexicon stays installed (C06-R9)."""
+    from .c06 import r9_progress_callbacks_return_nothing
+    r9_progress_callbacks_return_nothing(ctx, res)
+
 RULES = [
     ('C05-R1', r1_cascade_closure, 40),
     ('C05-R2', r2_fk_enforcement, 3),
@@ -649,4 +655,5 @@ RULES = [
     ('C05-R14', r14_importer_does_not_touch_its_input, 20),
     ('C05-R15', r15_remove_selects_what_the_specifier_means, 4),
     ('C05-R16', r16_skip_depends_on_the_database_only, 1),
+    ('C05-R17', r17_removal_is_not_interrupted_by_its_own_progress_callback, 1),
 ]
